@@ -310,6 +310,46 @@ def work_long(chunk, st):
     st.sample({'long_lists': [list(x) for x in chunk[:2]]}, cap=4)
 
 
+# ---- peers whose ONLY finding is a measured size: an otherwise flawless configuration with one key, CA key or modulus below a documented
+# threshold (below 2048 bits a failure, below 3072 a warning; a NIST-curve CA a failure).  The status is stated from the sizes the peer
+# really has - not from what the report shows
+def sized_tasks():
+    out = []
+    for what, bits, want in (('rsa-key', 1024, 3), ('rsa-key', 2047, 3), ('rsa-key', 2048, 2), ('rsa-key', 3071, 2), ('rsa-key', 3072, 0), ('rsa-key', 4096, 0),
+                             ('rsa-ca', 1024, 3), ('rsa-ca', 2048, 2), ('rsa-ca', 3072, 0), ('ecdsa-ca', 256, 3), ('ed25519-ca', 256, 0),
+                             ('rsa-ca-of-rsa-cert', 1024, 3), ('rsa-ca-of-rsa-cert', 2048, 2), ('ed25519-ca-of-rsa-cert', 256, 0),
+                             ('gex', 1024, 3), ('gex', 2048, 2), ('gex', 3072, 2), ('gex', 4096, 2)):
+        for opts in ((), ('-j',), ('-b', '-l', 'fail')):
+            out.append((what, bits, want, opts))
+    return out
+
+
+def work_sized(chunk, st):
+    for what, bits, want, opts in chunk:
+        kex, keys, hk, gex = ['sntrup761x25519-sha512@openssh.com', 'curve25519-sha256'], ['ssh-ed25519'], {}, None
+        if what == 'rsa-key':
+            keys, hk = ['rsa-sha2-512', 'ssh-ed25519'], {'rsa_bits': bits}
+        elif what in ('rsa-ca', 'ecdsa-ca', 'ed25519-ca'):
+            keys, hk = ['ssh-ed25519-cert-v01@openssh.com', 'ssh-ed25519'], {'ca': {'rsa-ca': 'rsa', 'ecdsa-ca': bits, 'ed25519-ca': 'ed25519'}[what], 'ca_bits': bits}
+        elif what.endswith('-of-rsa-cert'):
+            keys, hk = ['rsa-sha2-512-cert-v01@openssh.com', 'ssh-ed25519'], {'rsa_bits': 4096, 'ca': 'rsa' if what.startswith('rsa') else 'ed25519', 'ca_bits': bits}
+        elif what == 'gex':
+            kex, gex = ['sntrup761x25519-sha512@openssh.com', 'diffie-hellman-group-exchange-sha256', 'curve25519-sha256'], peer.GexPolicy([bits], peer.STRICT)
+        srv = peer.Server(kex=kex, key=keys, enc=['aes256-gcm@openssh.com'], mac=['hmac-sha2-256-etm@openssh.com'], banner=b'SSH-2.0-dropbear_2022.83',
+                          host_keys=peer.standard_host_keys(keys, **hk), gex=gex)
+        res = H.audit(srv, opts=['-n', '--skip-rate-test'] + list(opts))
+        base = peer.Server(kex=kex[:1] + kex[-1:], key=['ssh-ed25519'], enc=['aes256-gcm@openssh.com'], mac=['hmac-sha2-256-etm@openssh.com'], banner=b'SSH-2.0-dropbear_2022.83',
+                           host_keys=peer.standard_host_keys(['ssh-ed25519']))
+        floor = H.audit(base, opts=['-n', '--skip-rate-test']).status      # what the configuration earns without the sized attribute (curve25519: a warning)
+        root = ('sized', what, bits, opts)
+        st.execution(res.world, outcome=('sized', res.status), root=root, nontrivial=root, detail='light')
+        exp = max(want, floor, key=lambda x: {0: 0, 2: 1, 3: 2}.get(x, 3))
+        if res.status != exp:
+            st.violation('sized-peer:status-%s-but-its-%s-earns-%s' % (res.status, what, exp), {'what': what, 'bits': bits, 'options': list(opts), 'status': res.status,
+                                                                                          'status_without_the_sized_attribute': floor, 'tail': res.stdout[-300:]})
+    st.sample({'sized_peers': [list(map(str, x)) for x in chunk[:2]]}, cap=4)
+
+
 def repeat_tasks():
     out = []
     faults = [(0, ('reset',)), (1, ('trunc_close', 9)), (1, ('garbage', 40, 3)), (0, ('trunc_stall', 4)), (1, ('len', 0, 'plus1'))]
@@ -479,6 +519,7 @@ def run(tier, seed):
     par.pmap(_FI.work, _FI.tasks(), extra=(('status',),), stats=st, chunk=6)
     par.pmap(work_repeats, repeat_tasks(), stats=st, chunk=4)
     par.pmap(work_long, long_tasks(), stats=st, chunk=4)
+    par.pmap(work_sized, sized_tasks(), stats=st, chunk=4)
     par.pmap(work_policy, policy_cases(), stats=st, procs=1)
     from props import delivery as _DL
     par.pmap(_DL.work, _DL.tasks(tier), extra=(('status',),), stats=st, chunk=12)
